@@ -28,6 +28,7 @@ import (
 	"reflect"
 	"runtime/debug"
 	"strconv"
+	"syscall"
 	"time"
 
 	"com.tuntun.rangers/node/src/storage/rlp"
@@ -134,6 +135,10 @@ func runBytesAll(r *mon.Run, b []byte, tgs []*target, o byteOpts) {
 func child(r *mon.Run, args []string) {
 	// the live heap of a child is tiny; without this the collector runs every few MB of garbage
 	debug.SetGCPercent(1600)
+	// memory guard: a decoder that trusts a declared length must kill this child ("out of memory" ->
+	// reported by the parent with the logged case), not the machine
+	lim := uint64(4) << 30
+	syscall.Setrlimit(syscall.RLIMIT_AS, &syscall.Rlimit{Cur: lim, Max: lim})
 	shard, _ := strconv.Atoi(args[1])
 	switch args[0] {
 	case "exh":
